@@ -265,12 +265,14 @@ func (e *Engine) registerIntrinsics() {
 	})
 	reg("fmt.Fprintf", func(e *Engine, st *State, args []Value, depth int) []Outcome {
 		e.modelsHit["fmt.Fprintf"] = true
-		msg := e.sprintf(st, args[1].(*StrV), args[2].(*SliceV))
-		if msg.Opaque {
-			panic(unsupported("Fprintf of a value whose formatting is not modelled"))
+		var outs []Outcome
+		for _, v := range e.sprintfForks(st, args[1].(*StrV), args[2].(*SliceV), nil, 0) {
+			if v.msg.Opaque {
+				panic(unsupported("Fprintf of a value whose formatting is not modelled"))
+			}
+			buf := e.bytesToSlice(v.st, v.msg.bytes(), "fmt.Fprintf buffer")
+			outs = append(outs, e.invoke(v.st, args[0].(*IfaceV), "Write", []Value{buf}, depth)...)
 		}
-		buf := e.bytesToSlice(st, msg.bytes(), "fmt.Fprintf buffer")
-		outs := e.invoke(st, args[0].(*IfaceV), "Write", []Value{buf}, depth)
 		return outs
 	})
 	reg("log.Println", func(e *Engine, st *State, args []Value, depth int) []Outcome {
@@ -380,6 +382,16 @@ func (e *Engine) registerIntrinsics() {
 		e.modelsHit["bytes.Buffer"] = true
 		s := st.load(bufField(st, args[0])).(*SliceV)
 		return ret(st, e.sliceToStr(st, s))
+	})
+	// Grow only reserves capacity: contents, length and read offset are unchanged. (A negative
+	// count panics in the real method; a request that may be negative is not modelled.)
+	reg("(*bytes.Buffer).Grow", func(e *Engine, st *State, args []Value, depth int) []Outcome {
+		e.modelsHit["bytes.Buffer"] = true
+		n := args[1].(*term.Term)
+		if !n.IsConst() || int64(n.Val) < 0 {
+			panic(unsupported("bytes.Buffer.Grow with a symbolic or negative count"))
+		}
+		return ret(st, nil)
 	})
 	reg("(*bytes.Buffer).Reset", func(e *Engine, st *State, args []Value, depth int) []Outcome {
 		e.modelsHit["bytes.Buffer"] = true
@@ -587,9 +599,22 @@ type fmtDirective struct {
 	hasP   bool
 	argIdx int // 1-based explicit index, 0 = sequential
 	verb   byte
+	cls    *hexClass // sign and digit count of a symbolic integer, fixed by a case split (Fprintf)
+}
+
+// hexClass: the sign and the number of significant hexadecimal digits of an integer argument.
+type hexClass struct {
+	neg    bool
+	digits int
 }
 
 func (e *Engine) sprintf(st *State, format *StrV, argsS *SliceV) *StrV {
+	return e.sprintfC(st, format, argsS, nil, nil)
+}
+
+// sprintfC: classes fixes the hexClass of arguments (by index); forkable (when non-nil) receives the
+// indices of symbolic integer arguments whose rendering was left opaque for want of a class.
+func (e *Engine) sprintfC(st *State, format *StrV, argsS *SliceV, classes map[int]hexClass, forkable *[]forkArg) *StrV {
 	f, ok := format.Concrete()
 	if !ok {
 		panic(unsupported("Sprintf with symbolic format"))
@@ -664,9 +689,24 @@ func (e *Engine) sprintf(st *State, format *StrV, argsS *SliceV) *StrV {
 			lit("%!" + string(d.verb) + "(BADINDEX)")
 			continue
 		}
+		if c, ok := classes[ai]; ok {
+			cc := c
+			d.cls = &cc
+		}
 		bs, op := e.formatArg(st, d, args[ai])
 		if op {
 			opaque = true
+			if forkable != nil && (d.verb == 'x' || d.verb == 'X') && !strings.Contains(d.flags, "#") && d.cls == nil {
+				if iv, ok := args[ai].(*IfaceV); ok {
+					if t, ok := iv.V.(*term.Term); ok && !t.IsBool() && !t.IsConst() {
+						zw := 0
+						if d.hasW && strings.Contains(d.flags, "0") && !strings.Contains(d.flags, "-") {
+							zw = d.width
+						}
+						*forkable = append(*forkable, forkArg{ai, zw})
+					}
+				}
+			}
 		}
 		out = append(out, bs...)
 	}
@@ -759,6 +799,27 @@ func (e *Engine) formatArg(st *State, d fmtDirective, a Value) (bs []*term.Term,
 				return digs, false
 			}
 		}
+		if (d.verb == 'x' || d.verb == 'X') && d.cls != nil && !strings.Contains(d.flags, "#") {
+			mag := term.Resize(v, 64, signed)
+			var out []*term.Term
+			if d.cls.neg {
+				mag = term.Neg(mag)
+				out = append(out, term.Const(8, '-'))
+			}
+			nd := d.cls.digits
+			if d.hasW && strings.Contains(d.flags, "0") && !strings.Contains(d.flags, "-") && d.width-len(out) > nd {
+				nd = d.width - len(out) // zero padding counts the sign
+			}
+			for k := 0; k < nd; k++ {
+				lo := 4 * (nd - 1 - k)
+				if lo >= 64 {
+					out = append(out, term.Const(8, '0'))
+					continue
+				}
+				out = append(out, hexDigit(term.Extract(mag, lo+3, lo), d.verb == 'X'))
+			}
+			return pad(out), false
+		}
 		return litTerms("<symbolic number>"), true
 	case *Ptr:
 		// error values / Stringers are rendered through their message when known
@@ -769,4 +830,92 @@ func (e *Engine) formatArg(st *State, d fmtDirective, a Value) (bs []*term.Term,
 		}
 	}
 	return litTerms("<value>"), true
+}
+
+// forkArg: an argument whose rendering needs a case split; zeroWidth is the zero-padded field width (0: none).
+type forkArg struct {
+	idx       int
+	zeroWidth int
+}
+
+type fmtVariant struct {
+	st  *State
+	msg *StrV
+}
+
+// sprintfForks renders the format; where the text of a symbolic integer under %x depends on its sign
+// or magnitude (it does not fit the zero-padded width, or there is no such width), the path is split
+// by sign and number of hexadecimal digits - the length of the output is a structural property.
+func (e *Engine) sprintfForks(st *State, format *StrV, argsS *SliceV, classes map[int]hexClass, depth int) []fmtVariant {
+	var forkable []forkArg
+	msg := e.sprintfC(st, format, argsS, classes, &forkable)
+	if !msg.Opaque || len(forkable) == 0 || depth >= 3 {
+		return []fmtVariant{{st, msg}}
+	}
+	ai, zw := forkable[0].idx, forkable[0].zeroWidth
+	iv := st.load(e.elemPtr(argsS, c64(ai))).(*IfaceV)
+	v := iv.V.(*term.Term)
+	_, signed, _ := intWidth(iv.T)
+	v64 := term.Resize(v, 64, signed)
+	maxD := (v.W + 3) / 4
+	type cand struct {
+		c    hexClass
+		cond *term.Term
+	}
+	var cs []cand
+	// values of at most minD digits all render with minD digits (zero padding): one class
+	rangeCond := func(mag *term.Term, lo, k int) *term.Term {
+		// lo..k significant digits (lo == 1 also covers zero)
+		var a, b *term.Term = term.True, term.True
+		if lo > 1 {
+			a = term.Not(term.Ult(mag, term.Const(64, uint64(1)<<uint(4*(lo-1)))))
+		}
+		if k < 16 {
+			b = term.Ult(mag, term.Const(64, uint64(1)<<uint(4*k)))
+		}
+		return term.And(a, b)
+	}
+	classesOf := func(neg bool, mag *term.Term, guard *term.Term) {
+		minD := 1
+		if zw > 0 {
+			minD = zw
+			if neg {
+				minD = zw - 1
+			}
+			if minD < 1 {
+				minD = 1
+			}
+			if minD > maxD {
+				minD = maxD
+			}
+		}
+		cs = append(cs, cand{hexClass{neg, minD}, term.And(guard, rangeCond(mag, 1, minD))})
+		for k := minD + 1; k <= maxD; k++ {
+			cs = append(cs, cand{hexClass{neg, k}, term.And(guard, rangeCond(mag, k, k))})
+		}
+	}
+	nonneg := term.True
+	if signed {
+		nonneg = term.Not(term.Slt(v64, term.Const(64, 0)))
+		classesOf(true, term.Neg(v64), term.Not(nonneg))
+	}
+	classesOf(false, v64, nonneg)
+	var res []fmtVariant
+	for _, c := range cs {
+		if c.cond == term.False {
+			continue
+		}
+		ns := st.fork()
+		ns.assume(c.cond)
+		if ns.dead() || !e.feasible(ns) {
+			continue
+		}
+		nc := map[int]hexClass{}
+		for k, x := range classes {
+			nc[k] = x
+		}
+		nc[ai] = c.c
+		res = append(res, e.sprintfForks(ns, format, argsS, nc, depth+1)...)
+	}
+	return res
 }
